@@ -68,6 +68,14 @@ Theorem C07_qcow2_short_base_chain :
 Proof. exact qcow2_short_base_chain. Qed.
 Print Assumptions C07_qcow2_short_base_chain.
 
+(* non-vacuity of the zero-extended view: an overlay that holds nothing over a base of 1024 bytes, read across the end of the base *)
+Example C07_short_base_nonvacuous :
+  let top := {| l_read := fun off n => Ok [SParent off n]; l_src := fun o => Parent o |} in
+  let base := {| l_read := fun off n => Ok [SFile off n]; l_src := File |} in
+  chain_read_c [top; clip_layer 1024 base] 512 1024 = Ok [LSFile 1 512 512; LSZero 512] /\
+  chain_spec_c [top; clip_layer 1024 base] 512 1024 = [LSFile 1 512 512; LSZero 512].
+Proof. split; vm_compute; reflexivity. Qed.
+
 (* VMDK delta links (hosted sparse / COWD / SE-sparse, compressed or not, any grain and table size, any
    table content): a chain of any depth, at sector granularity (the unit of VMDK.read_sectors) *)
 Theorem C07_vmdk_delta_chain :
@@ -141,6 +149,12 @@ Theorem C07_vmdk_parent_required :
   fs same = false -> fs up = false -> vmdk_open_parent fs true same up = Err.
 Proof. intros P fs. exact (vmdk_parent_required fs). Qed.
 Print Assumptions C07_vmdk_parent_required.
+
+Example C07_vmdk_parent_nonvacuous :
+  vmdk_open_parent (fun p : Z => p =? 2) true 1 2 = Ok (Some 2) /\
+  vmdk_open_parent (fun _ : Z => true) true 1 2 = Ok (Some 1) /\
+  vmdk_open_parent (fun _ : Z => false) true 1 2 = Err.
+Proof. repeat split; reflexivity. Qed.
 
 Theorem C07_hdd_image_required :
   forall (P : Type) (fs : P -> bool) ia p c1 c2 c3 rel,
